@@ -232,6 +232,10 @@ def shape_list(tier):
     add(("forall", "w", ("has", x, "w")))
     add(("and", ("has", x, "w"), ("cmp", ">", ("a", x), ("lit", 0))), False)
     add(("exists", y, ("exists", "z", ("and", XY[1], ("cmp", "<", ("a", y), ("a", "z"))))), False)
+    # a disjunction whose left side is a quantified condition and whose right side is over a subset of its variables
+    add(("or", ("exists", y, XY[0]), X[1]))
+    add(("or", ("forall", y, XY[1]), X[0]), False)
+    add(("or", X[1], ("exists", y, XY[0])), False)
     # quantifier alternation: the witness of the inner quantifier is found anew for every value of the outer variable
     ZY = ("cmp", "==", ("a", "z"), ("a", y))
     add(("and", X[1], ("forall", y, ("exists", "z", ZY))))
